@@ -231,6 +231,9 @@ func DecompressToG2(m []byte) (*bn256.G2, error) {
 	y2 := new(gfP2).pow(x, big.NewInt(3))
 	y2.add(y2, twistB)
 	y := sqrtGfP2(y2)
+	if y == nil {
+		return nil, errors.New("failed to decompress G2")
+	}
 
 	// Compare calculated Y parity with the original Y parity in the top bit of
 	// the compressed point. If it doesn't match, we know `Y1 + Y2 = P`, so we
@@ -267,7 +270,8 @@ func x2y(x, y *gfP2) bool {
 	return y.x.Cmp(x.x) == 0 && y.y.Cmp(x.y) == 0
 }
 
-// sqrtGfP2 returns square root of a gfP2 element.
+// sqrtGfP2 returns square root of a gfP2 element. If x is not a square,
+// function returns nil.
 func sqrtGfP2(x *gfP2) *gfP2 {
 
 	// (bn256.p^2 + 15) // 32)
@@ -275,8 +279,13 @@ func sqrtGfP2(x *gfP2) *gfP2 {
 
 	y := new(gfP2).pow(x, exp)
 
-	// Multiply y by hexRoot constant to find correct y.
-	for !x2y(x, y) {
+	// Multiply y by hexRoot constant to find correct y. hexRoot is a 16th
+	// root of unity, so after 16 multiplications y is back at its initial
+	// value: if none of the candidates squares to x, x has no square root.
+	for i := 0; !x2y(x, y); i++ {
+		if i == 16 {
+			return nil
+		}
 		y.multiply(y, hexRoot)
 	}
 	return y
